@@ -82,10 +82,11 @@ CLAIMED = {
                  'the implementation over (n, K, fft_size, batch shapes, dtype, 64-bit mode on/off) × four methods.  Closed '
                  'form (Props/C09Closed.lean): in the list denotation used by C01–C06 a Toeplitz leaf with an un-batched band '
                  'IS the banded product along the last axis of every leaf; the method and FFT size do not enter it; all four '
-                 'evaluation functions and every accepted configuration compute it; it is self-adjoint.'),
+                 'evaluation functions and every accepted configuration compute it; it is self-adjoint.'
+                 ' BATCHED band arrays (one band row per detector, any broadcastable batch shape) are interpreted by the same denotation: row b uses the band row NumPy broadcasting assigns to it (band_row_is_broadcast, band_row_one_per_row), all four methods and every accepted configuration compute it row by row, it is self-adjoint, and the un-batched statements are kept as the special case (…_unbatched, unbatched_valid_iff).'),
         'note': ('Trusted: Lean kernel + Mathlib + standard axioms; A3 (FFT = exact circular convolution; FFT accuracy is '
-                 'runtime, tolerance 1e-3 relative on those channels); the dense scatter is validated differentially '
-                 '(entry-wise against the specification on every run), its index arithmetic is not yet a theorem; batch '
+                 'runtime, tolerance 1e-3 relative on those channels); the dense scatter is a theorem (dense_entry_correct) and is '
+                 'also compared entry-wise on every run; batch '
                  'broadcasting reproduced by the harness.'),
         'technique': 'Lean 4 proof (Finset.sum reindexing, omega) + differential correspondence of the executable kernels',
         'design_ref': '§5 C09',
@@ -161,10 +162,12 @@ CLAIMED = {
                  'counterexample for the pre-repair code); the unique_indices flag logic and the constructor guards.  The '
                  'model of NumPy indexing (ints, slices incl. negative steps, ellipsis, integer arrays of any rank, boolean '
                  'masks, adjacency rule) is compared element-position by element-position with the implementation, with NumPy '
-                 'as the oracle, including construction with and without output structure, transposes and both rules.'),
+                 'as the oracle, including construction with and without output structure, transposes and both rules.'
+                 " BASIC and MASK indexing (Props/C12Basic.lean): the model of Python slicing equals CPython's PySlice_AdjustIndices and yields strictly monotone, in-bounds positions (error iff step = 0); for every tuple of integers, slices, an ellipsis and boolean masks — exactly the tuples for which the constructor infers unique_indices — the position list is duplicate-free, in bounds and as long as the output, so P @ P.T = identity is sound wherever the flag is inferred (inferred_flag_sound, index_pair_inferred), with a kernel-checked witness that integer arrays (negative aliases included) break it."),
         'note': ('Trusted: Lean kernel + standard axioms; A1 (JAX indexing = NumPy for in-bounds indices), A2 (linear_transpose '
                  'of a gather is the scatter-add; compared with the model on every case).  The position map of NumPy indexing '
-                 'is validated differentially, not proved injective for basic indices.'),
+                 'is a theorem for basic and mask indexing (injective, in bounds: C12Basic); its agreement with NumPy is differential. '
+                 'A 0-d boolean mask (x[jnp.array(True)] adds an axis) is a no-op in the model and is never generated.'),
         'technique': 'Lean 4 proof (list sums, induction) + differential correspondence of the NumPy indexing model',
         'design_ref': '§5 C12',
     },
@@ -204,7 +207,8 @@ CLAIMED = {
                  'rotation: orthogonal with the transpose as adjoint), that nothing is tagged triangular, tridiagonal or '
                  'semidefinite, that composites are never tagged, and that the wiring is exactly the expected one.  The standing '
                  'search builds random instances of every concrete class and composites and tests every tag query and '
-                 'decorator against the dense matrix.'),
+                 'decorator against the dense matrix.'
+                 ' CLOSED (Props/C08Closed.lean): in the list denotation of C01-C06, for EVERY row of the regenerated class table and every tag the row declares, every well-formed operator of that class satisfies the tag semantically for all parameter values (tags_truthful_closed): symmetric = denT is den, <Ax,y> = <x,Ay>, the Mathlib matrix IsSymm and A.T is A; diagonal = pointwise multiplication by a vector, off-diagonal entries of the matrix vanish; orthogonal = both round trips are the identity, Gram matrices are 1, A.I is the form A.T; square = equal structures; the summary fails to compile when the source gains a tag or decorator wiring without a semantic lemma (provedTags_sound, orthogonal_table, square_table, declared_classes_modelled); kernel-checked witnesses that a rotation is not symmetric and an index operator not diagonal. The search also probes COMPOSITES as a user writes them (sandwiches X.I S X / X.T S X around a symmetric centre, arithmetic on symmetric operands, random expressions and their reductions) and requires a symmetric matrix whenever A.T is A.'),
         'note': ('Trusted: Lean kernel + Mathlib + standard axioms; the translator (tags are read with lx.is_*.dispatch(cls)); '
                  'the diagonal-operator fact relies on C11.'),
         'technique': 'Lean 4 proof over a finite table regenerated from the source (decide) + kernel theorems per tagged class',
